@@ -498,15 +498,17 @@ def _closure_case(spec):
     x, y, z = rng.normal(size=5), rng.normal(size=5), rng.normal(size=5)
     w1, w2 = float(rng.uniform(0.5, 2)), float(rng.uniform(0.5, 2))
     leaves = {
+        "closure_b": lambda: tdgl.Parameter(_make_profile(w2)),  # same factory, same bytecode, another captured value
         "closure": lambda: tdgl.Parameter(_make_profile(w1)),
         "closure_t": lambda: tdgl.Parameter(_make_profile(w2, True), time_dependent=True),
         "lambda": lambda: tdgl.Parameter(lambda x, y, z: 2.0 + 0.0 * x),
         "module": lambda: tdgl.Parameter(f3, sigma=2.0),
     }
-    raw = {"closure": lambda t: _make_profile(w1)(x, y, z), "closure_t": lambda t: _make_profile(w2, True)(x, y, z, t=t),
+    raw = {"closure_b": lambda t: _make_profile(w2)(x, y, z), "closure": lambda t: _make_profile(w1)(x, y, z), "closure_t": lambda t: _make_profile(w2, True)(x, y, z, t=t),
            "lambda": lambda t: 2.0 + 0.0 * x, "module": lambda t: f3(x, y, z, sigma=2.0)}
     combos = [("closure", "*", 2.5), (3, "+", "closure"), ("closure", "-", "module"), ("closure_t", "*", "closure"), ("lambda", "/", "closure"),
-              ("closure", "**", 2), (("closure", "+", "lambda"), "*", "closure_t"), (2.0, "*", ("closure_t", "-", 1))]
+              ("closure", "**", 2), (("closure", "+", "lambda"), "*", "closure_t"), (2.0, "*", ("closure_t", "-", 1)),
+              ("closure", "+", "closure_b"), ("closure", "-", "closure_b"), ((2, "*", "closure"), "+", (2, "*", "closure_b")), ("closure_b", "/", "closure")]
 
     def build(e):
         if isinstance(e, tuple):
@@ -524,6 +526,17 @@ def _closure_case(spec):
         tdep = "closure_t" in repr(e)
         kw = {"t": 0.37} if tdep else {}
         want = value(e, 0.37)
+        C["value_checks"] += 1
+        try:
+            got0 = comp(x, y, z, **kw)
+            if not np.allclose(got0, want, rtol=1e-13, atol=0):
+                V.append({"kind": "composite_value_wrong", "mechanism": "composite_value_wrong", "detail": {"expr": repr(e), "max_abs_diff": float(np.max(np.abs(np.asarray(got0) - want)))}})
+        except Exception as exc:  # noqa: BLE001
+            V.append({"kind": "composite_evaluation_raised", "mechanism": "composite_value_wrong", "detail": {"expr": repr(e), "error": repr(exc)[:200]}})
+        # the same expression built a second time is structurally the same expression
+        C["equality_checks"] = C.get("equality_checks", 0) + 1
+        if not (comp == build(e)):
+            V.append({"kind": "rebuilt_expression_not_equal", "mechanism": "equality_not_structural", "detail": {"expr": repr(e)}})
         for how, fn in (("pickle", lambda c: pickle.loads(pickle.dumps(c))), ("cloudpickle", lambda c: cloudpickle.loads(cloudpickle.dumps(c))), ("deepcopy", copy_mod.deepcopy)):
             C["closure_pickle_checks"] += 1
             C["pickle_checks"] += 1
@@ -535,6 +548,9 @@ def _closure_case(spec):
                     V.append({"kind": "pickled_value_mismatch", "mechanism": "pickle_changes_value", "detail": {"expr": repr(e), "how": how}})
                 if clone.time_dependent != comp.time_dependent:
                     V.append({"kind": "pickled_flag_wrong", "mechanism": "pickle_changes_flag", "detail": {"expr": repr(e), "how": how}})
+                C["equality_checks"] = C.get("equality_checks", 0) + 1
+                if not (clone == comp) or not (comp == clone):
+                    V.append({"kind": "pickled_not_equal", "mechanism": "pickle_changes_equality", "detail": {"expr": repr(e), "how": how}})
             except Exception as exc:  # noqa: BLE001
                 V.append({"kind": "composite_over_closure_not_serialisable", "mechanism": "pickle_raised", "detail": {"expr": repr(e), "how": how, "error": repr(exc)[:200]}})
         # the original still works after having been serialised
